@@ -23,6 +23,7 @@ type Ctx struct {
 	Repo     string
 	Verif    string
 	Thorough bool
+	findIdx   map[*ssa.Function]*findIndex
 	nonEmpty  map[*ssa.Parameter]int
 	shrinkers map[*types.Var]map[*types.Func]bool
 	boundsSeen map[string]bool
